@@ -684,23 +684,7 @@ namespace Givaro {
      template<typename Any>
      inline typename GFqDom<Any>::Rep& GFqDom<Any>::init( Rep& r, const int32_t Residu ) const
      {
-         int32_t tr = Residu ;
-         if (tr <0) {
-                 // -a = b [p]
-                 // a = p-b [p]
-             tr = -tr;
-             if (tr >= (int32_t)_q )
-                 tr =(int32_t)( (UT)tr % _q ) ;
-             if (tr)
-                 return r = (Rep) _pol2log[(UT) _q - (UT)tr ];
-             else
-                 return r = zero;
-         }
-         else {
-             if (tr >= (int32_t)_q )
-                 tr = int32_t((uint32_t)tr % _q ) ;
-             return r = (Rep)_pol2log[ (UT)tr ];
-         }
+         return init(r, static_cast<int64_t>(Residu));
      }
      template<typename Any>
      inline typename GFqDom<Any>::Rep& GFqDom<Any>::init( Rep& r, const int64_t Residu ) const
@@ -709,9 +693,7 @@ namespace Givaro {
          if (tr <0) {
                  // -a = b [p]
                  // a = p-b [p]
-             tr = -tr;
-             if (tr >= (int64_t)_q )
-				tr = tr % (int64_t)_q ;
+             tr = -(tr % (int64_t)_q);   // reduce first: -tr overflows for INT64_MIN
              if (tr)
                  return r = (typename GFqDom<Any>::Rep) _pol2log[ (size_t)_q - (size_t)tr ];
              else
